@@ -207,12 +207,33 @@ Proof.
   destruct n as [|n]; [lia|]. rewrite IH; [reflexivity|discriminate|lia].
 Qed.
 
+Lemma pages_accepted_iff n : forall k,
+  pages_accepted k n = true <-> (n = 0%nat \/ k + N.of_nat n <= 32768)%N.
+Proof.
+  induction n as [|n IH]; intros k; cbn [pages_accepted]; [split; auto|].
+  unfold max_int16. destruct (N.ltb_spec 32767 k) as [L|L].
+  - split; [discriminate|]. intros [H|H]; [discriminate|lia].
+  - rewrite IH. split.
+    + intros [H|H]; right; [subst n; cbn; lia|lia].
+    + intros [H|H]; [discriminate|]. destruct n; [left; reflexivity|right; lia].
+Qed.
+
+(** The decision is the one of the page loop. *)
+Lemma pages_accepted_chk pfx fu rgo colo np n :
+  pages_accepted (N.of_nat np) n = true <-> write_data_pages_chk pfx fu rgo colo np n <> None.
+Proof.
+  rewrite pages_accepted_iff. split.
+  - intros H. rewrite write_data_pages_chk_some; [discriminate|]. destruct H; [left; assumption|right; lia].
+  - intros H. destruct n; [left; reflexivity|]. right.
+    destruct (N.leb_spec (N.of_nat np + N.of_nat (S n)) 32768) as [L|L]; [exact L|].
+    exfalso. apply H. apply write_data_pages_chk_none; [discriminate|lia].
+Qed.
+
 Lemma chunk_accepted_iff c : chunk_accepted c = true <-> (N.of_nat (c_pages c) <= 32768)%N.
 Proof.
-  unfold chunk_accepted. split.
-  - intros H. destruct (N.leb_spec (N.of_nat (c_pages c)) 32768) as [L|L]; [exact L|].
-    rewrite write_data_pages_chk_none in H; [discriminate| |lia]. intros E. rewrite E in L. cbn in L. lia.
-  - intros H. rewrite write_data_pages_chk_some; [reflexivity|]. right. lia.
+  unfold chunk_accepted. rewrite pages_accepted_iff. split.
+  - intros [H|H]; [rewrite H; cbn; lia|lia].
+  - intros H. right. lia.
 Qed.
 
 Lemma layout_accepted_spec lay : layout_accepted lay = true ->
